@@ -228,7 +228,7 @@ def _convert_run(infile, outpath, many, infmt, outfmt, allow, pre):
     return err, content
 
 
-def _cli_run(infile, outpath, many, infmt, outfmt, allow, pre, keep=False):
+def _cli_run(infile, outpath, many, infmt, outfmt, allow, pre, keep=False, cwd=None):
     if os.path.exists(outpath) and not keep:
         os.unlink(outpath)
     if pre is not None:
@@ -245,7 +245,7 @@ def _cli_run(infile, outpath, many, infmt, outfmt, allow, pre, keep=False):
         cmd += ["-m"]
     cmd += [infile, outpath]
     env = dict(os.environ, PYTHONPATH=str(REPO), PYTHONDONTWRITEBYTECODE="1")
-    p = subprocess.run(cmd, capture_output=True, text=True, env=env, cwd=os.path.dirname(outpath), timeout=600)
+    p = subprocess.run(cmd, capture_output=True, text=True, env=env, cwd=cwd or os.path.dirname(outpath), timeout=600)
     content = open(outpath, "rb").read() if os.path.exists(outpath) else None
     return p.returncode, content, p.stderr
 
@@ -314,6 +314,16 @@ def check_case(case, work):
         infmt, outfmt, name = target[3:], None, "out.xyz"
     if target == "mkl":
         outfmt = "molekel" if explicit else None
+    if len(case) > 7 and case[7] and case[7][0] == "missing-dir":
+        d2 = tempfile.mkdtemp(dir=work)
+        a_err, _ab = _api_run(infile, os.path.join(d, "new", "sub", name), many, infmt, outfmt, allow, None)
+        rc, _cb, stderr = _cli_run(infile, os.path.join(d2, "new", "sub", name), many, infmt, outfmt, allow, None, cwd=d2)
+        left = os.path.exists(os.path.join(d2, "new"))
+        if rc == 0:
+            return "bad", f"output directory missing: CLI exit 0 although the API calls raise {a_err}"
+        if left and not os.path.exists(os.path.join(d, "new")):
+            return "bad", "output directory missing: the CLI failed but left a newly created directory behind (the API calls create nothing)"
+        return "ok-failure", None
     if len(case) > 7 and case[7] and case[7][0] == "inplace":
         # the output name is the input name: each executor works on its own copy
         base = os.path.basename(infile)
@@ -422,6 +432,22 @@ def _cases(ctx):
     for src, tgt in (("h2o_sto3g.wfn", "xyz"), ("water_hfs_321g.fchk", "xyz"), ("li_sp_virtual_orca.molden", "pdb"), ("POSCAR.water", "sdf")):
         for pre in (None, "OLD CONTENT\n"):
             cases.append((src, tgt, True, False, False, pre))
+    # output in a directory that does not exist: the API calls fail to open it (OSError), nothing is created
+    for src, tgt, many in (("water.xyz", "sdf", False), ("water_trajectory.xyz", "xyz", True), ("water_sto3g_hf_g03.fchk", "mkl", False)):
+        cases.append((src, tgt, many, False, False, None, None, ("missing-dir",)))
+    # a trajectory whose third frame is damaged: with --many the API calls fail when they reach it
+    traj = (REPO / "iodata" / "test" / "data" / "water_trajectory.xyz")
+    if traj.exists():
+        tl = traj.read_text().splitlines(keepends=True)
+        n0 = int(tl[0])
+        k = 2 * (n0 + 2) + 3
+        if k < len(tl):
+            broken = tl[:k] + [tl[k].replace(tl[k].split()[1], "1.x3", 1)] + tl[k + 1:]
+            cut = tl[: 2 * (n0 + 2) + 2]
+            for name, text in (("broken-frame.xyz", "".join(broken)), ("cut-frame.xyz", "".join(cut))):
+                for tgt in ("xyz", "pdb"):
+                    for pre in (None, "OLD CONTENT\n"):
+                        cases.append((name, tgt, True, False, False, pre, text))
     # conversion of a file onto itself (input and output name the same file)
     for src, explicit in (("water.xyz", False), ("example.sdf", False), ("caffeine.mol2", False), ("water.xyz", True)):
         cases.append((src, os.path.splitext(src)[1][1:], False, explicit, False, None, None, ("inplace",)))
